@@ -280,12 +280,87 @@ func (pg *program) Generate() error {
 	// sort.Slice(pkgInfos, func(i, j int) bool {
 	// 	return pkgInfos[i].String() < pkgInfos[j].String()
 	// })
-	for i := range pkgInfos {
-		if err := pg.generatePackage(pkgInfos[i]); err != nil {
+	// A package is generated after the packages of this run that it imports:
+	// its derive calls can depend on what is generated for them.
+	for _, pkgInfo := range dependenciesFirst(pg.program, pkgInfos) {
+		if err := pg.generatePackage(pkgInfo); err != nil {
 			return err
 		}
 	}
 	return nil
+}
+
+// dependenciesFirst orders the packages such that a package follows every other package in the list that it imports, directly or indirectly.
+func dependenciesFirst(program *loader.Program, pkgInfos []*loader.PackageInfo) []*loader.PackageInfo {
+	ordered := make([]*loader.PackageInfo, 0, len(pkgInfos))
+	done := make(map[*loader.PackageInfo]bool)
+	var visit func(info *loader.PackageInfo)
+	visit = func(info *loader.PackageInfo) {
+		if done[info] {
+			return
+		}
+		done[info] = true
+		imports := initialImports(program, pkgInfos, info)
+		for _, other := range pkgInfos {
+			if imports[dirOf(program, other)] {
+				visit(other)
+			}
+		}
+		ordered = append(ordered, info)
+	}
+	for _, info := range pkgInfos {
+		visit(info)
+	}
+	return ordered
+}
+
+// dirOf returns the directory of the source files of a loaded package.
+func dirOf(program *loader.Program, info *loader.PackageInfo) string {
+	if info == nil || len(info.Files) == 0 {
+		return ""
+	}
+	file := program.Fset.File(info.Files[0].Pos())
+	if file == nil {
+		return ""
+	}
+	dir, err := filepath.Abs(filepath.Dir(file.Name()))
+	if err != nil {
+		return ""
+	}
+	return dir
+}
+
+// initialImports returns the other packages of this run, by directory, that the package imports, directly or indirectly.
+// A package can be named on the command line in another way (./b) than it is imported (p/b), its directory is the same.
+func initialImports(program *loader.Program, pkgInfos []*loader.PackageInfo, pkgInfo *loader.PackageInfo) map[string]bool {
+	initial := make(map[string]bool)
+	for _, info := range pkgInfos {
+		if dir := dirOf(program, info); dir != "" && dir != dirOf(program, pkgInfo) {
+			initial[dir] = true
+		}
+	}
+	found := make(map[string]bool)
+	seen := make(map[*types.Package]bool)
+	var visit func(p *types.Package)
+	visit = func(p *types.Package) {
+		for _, imp := range p.Imports() {
+			if seen[imp] {
+				continue
+			}
+			seen[imp] = true
+			if dir := dirOf(program, program.AllPackages[imp]); initial[dir] {
+				found[dir] = true
+			}
+			visit(imp)
+		}
+	}
+	visit(pkgInfo.Pkg)
+	return found
+}
+
+// importsInitialPackage returns whether the package imports, directly or indirectly, another package that this run generates.
+func (pg *program) importsInitialPackage(pkgInfo *loader.PackageInfo) bool {
+	return len(initialImports(pg.program, pg.program.InitialPackages(), pkgInfo)) > 0
 }
 
 func (pg *program) generatePackage(pkgInfo *loader.PackageInfo) error {
@@ -298,6 +373,17 @@ func (pg *program) generatePackage(pkgInfo *loader.PackageInfo) error {
 	generated := true
 	var undefined string
 	thisprogram := pg.program
+	if pg.importsInitialPackage(pkgInfo) {
+		// Another package of this run is imported by this one. In pg.program that package is loaded without its old
+		// derived.gen.go and without what this run has generated for it in the meantime.
+		// This package is loaded again on its own, hiding only its own old derived.gen.go,
+		// so that it sees its dependencies as it does when it is generated alone.
+		alone, err := load(true, path)
+		if err == nil && alone.Package(path) != nil {
+			thisprogram = alone
+			pkgInfo = alone.Package(path)
+		}
+	}
 	for generated {
 		pkgGen, err := newPackage(thisprogram, pkgInfo, pg.plugins, pg.autoname, pg.dedup)
 		if err != nil {
